@@ -44,7 +44,7 @@ import (
 type TrustedResourceURL struct {
 	// We declare a TrustedResourceURL not as a string but as a struct wrapping a string
 	// to prevent construction of TrustedResourceURL values through string conversion.
-	str string
+	resourceURL string
 }
 
 // TrustedResourceURLWithParams constructs a new TrustedResourceURL with the
@@ -53,7 +53,7 @@ type TrustedResourceURL struct {
 // Map entries with empty keys or values are ignored. The order of appended
 // keys is guaranteed to be stable but may differ from the order in input.
 func TrustedResourceURLWithParams(t TrustedResourceURL, params map[string]string) TrustedResourceURL {
-	url := t.str
+	url := t.resourceURL
 	var fragment string
 	if i := strings.IndexByte(url, '#'); i != -1 {
 		// The fragment identifier component will always appear at the end
@@ -178,7 +178,7 @@ func TrustedResourceURLFromFlag(value flag.Value) TrustedResourceURL {
 
 // String returns the string form of the TrustedResourceURL.
 func (t TrustedResourceURL) String() string {
-	return t.str
+	return t.resourceURL
 }
 
 // TrustedResourceURLAppend URL-escapes a string and appends it to the TrustedResourceURL.
@@ -193,8 +193,8 @@ func (t TrustedResourceURL) String() string {
 // `<origin>` must contain only alphanumerics, '.', ':', '[', ']', or '-', and
 // `<pathStart>` is any character except `/` and `\`.
 func TrustedResourceURLAppend(t TrustedResourceURL, s string) (TrustedResourceURL, error) {
-	if !safehtmlutil.IsSafeTrustedResourceURLPrefix(t.str) {
+	if !safehtmlutil.IsSafeTrustedResourceURLPrefix(t.resourceURL) {
 		return TrustedResourceURL{}, fmt.Errorf("cannot append to TrustedResourceURL %q because it has an unsafe prefix", t)
 	}
-	return TrustedResourceURL{t.str + safehtmlutil.QueryEscapeURL(s)}, nil
+	return TrustedResourceURL{t.resourceURL + safehtmlutil.QueryEscapeURL(s)}, nil
 }
